@@ -96,7 +96,7 @@ def layer(ctx, which, k, stride=None):
     for j in range(k):                    # build shared sub-term tables before forking
         for ty in (typed.I, typed.R, typed.S, typed.B, typed.TT, typed.D):
             en.terms(ty, j)
-    units = [(which, k, si, split, stride) for si, split in en.work_units(typed.B, k)]
+    units = [(which, k, si, split, (j, 4)) for si, split in en.work_units(typed.B, k) for j in range(4)]   # 4 stripes per unit: load balance
     before = ctx.counts["states"]
     ctx.pmap(_unit, units)
     return int(ctx.counts["states"] - before)
